@@ -17,14 +17,22 @@ SimpleRings(k) == {r \in {CloseRing(vs) : vs \in [1..k -> Verts]} : Canonical(r)
 (* holed polygons: shell = the full square or the lower-left triangle of the G-grid, hole = a triangle or
    axis-parallel square on the inner grid, wound opposite to the shell; needs G >= 5 *)
 M == 2 * (G - 1)
+(* closed ring started at another vertex: Rot(r, k) starts at r[k + 1] *)
+Rot(ring, k) == LET n == Len(ring) - 1 IN [i \in 1..(n + 1) |-> ring[((i - 1 + k) % n) + 1]]
 Shells == { << <<0, 0>>, <<M, 0>>, <<M, M>>, <<0, M>>, <<0, 0>> >>,
             << <<0, 0>>, <<0, M>>, <<M, M>>, <<M, 0>>, <<0, 0>> >>,
             << <<0, 0>>, <<M, 0>>, <<0, M>>, <<0, 0>> >>,
-            << <<0, 0>>, <<0, M>>, <<M, 0>>, <<0, 0>> >> }
+            << <<0, 0>>, <<0, M>>, <<M, 0>>, <<0, 0>> >>,
+            Rot(<< <<0, 0>>, <<M, 0>>, <<M, M>>, <<0, M>>, <<0, 0>> >>, 1),
+            Rot(<< <<0, 0>>, <<0, M>>, <<M, M>>, <<M, 0>>, <<0, 0>> >>, 3) }
 Inner == {2 * i : i \in 1..(G - 2)}
 InnerRings == {r \in {CloseRing(vs) : vs \in [1..3 -> Inner \X Inner]} : SimpleRing(r)}
 InnerSquares == UNION { { << <<a, b>>, <<a + s, b>>, <<a + s, b + s>>, <<a, b + s>>, <<a, b>> >>,
-                          << <<a, b>>, <<a, b + s>>, <<a + s, b + s>>, <<a + s, b>>, <<a, b>> >> }
+                          << <<a, b>>, <<a, b + s>>, <<a + s, b + s>>, <<a + s, b>>, <<a, b>> >>,
+                          (* the same squares started at the opposite corner: the straight line from the previous ring's first
+                             vertex to this ring's first vertex then runs through the hole *)
+                          Rot(<< <<a, b>>, <<a + s, b>>, <<a + s, b + s>>, <<a, b + s>>, <<a, b>> >>, 2),
+                          Rot(<< <<a, b>>, <<a, b + s>>, <<a + s, b + s>>, <<a + s, b>>, <<a, b>> >>, 2) }
                         : <<a, b, s>> \in {t \in Inner \X Inner \X {2, 4} : t[1] + t[3] < M /\ t[2] + t[3] < M} }
 Holed1 == {p \in {<<s, h>> : s \in Shells, h \in (InnerRings \cup InnerSquares)} : ValidPolygon(p)}
 Holed2 == {p \in {<<s, h1, h2>> : s \in Shells, h1 \in InnerSquares, h2 \in InnerSquares} : ValidPolygon(p)}
@@ -66,6 +74,7 @@ Elements ==
       [] Fam = "polygon"    -> {<<"polygon", El(<< <<r>> >>)>> : r \in SimpleRings(3) \cup SimpleRings(4)}
                                \cup {<<"polygon", El(<< <<>> >>)>>, <<"polygon", NULL>>}
       [] Fam = "holed"      -> {<<"polygon", El(<<p>>)>> : p \in Holed1 \cup Holed2}
+      [] Fam = "holedrot"   -> {<<"polygon", El(<<p>>)>> : p \in {q \in Holed1 : Len(q[2]) = 5 /\ (q[2][1][1] - q[2][3][1] = 4 \/ q[2][3][1] - q[2][1][1] = 4)}}
       [] Fam = "multipolygon" -> {<<"multipolygon", El(pp)>> : pp \in PolyPairs}
                                \cup {<<"multipolygon", El(<<>>)>>, <<"multipolygon", NULL>>}
       [] Fam = "mpoints"    -> {<<"multipoint", El(<< <<vs>> >>)>> : vs \in UNION {[1..k -> VertsX] : k \in 0..2}}
